@@ -90,6 +90,10 @@ pub trait Property: Sync {
     fn exhaustive_claim(&self, _tier: Tier) -> Option<String> {
         None
     }
+    /// evidence level (EVIDENCE.schema.json)
+    fn level(&self) -> &'static str {
+        "exploration"
+    }
     /// also run the generated cases under the `release` profile binary (C01: real out-of-bounds reads
     /// must be executed to hit a guard page instead of a debug check)
     fn also_release(&self) -> bool {
@@ -1043,7 +1047,7 @@ pub fn driver_main(prop: &dyn Property, tier: Tier, root: &Path) -> i32 {
         "property_id": id,
         "tier": tier.name(),
         "seed": seed as i64,
-        "level": "exploration",
+        "level": prop.level(),
         "coverage": coverage,
         "assumptions": prop.assumptions(),
         "wall_s": wall,
